@@ -352,6 +352,131 @@ def r3_maps(ctx):
         r.ok("C01.R3", fn.qual, "every overlapping single-block query on non-overlapping layouts", fn)
 
 
+# ---------------------------------------------------------------------------------------------------------
+# R5: relative-location form with multi-block queries (and windows)
+# ---------------------------------------------------------------------------------------------------------
+R5_REFS_QUICK = [[(1, 2), (5, 7)], [(1, 3), (4, 5), (7, 9)]]
+R5_REFS_THOROUGH = [[(2, 9)], [(1, 3), (3, 5), (8, 9)], [(1, 2), (4, 5), (7, 8), (10, 11)]]
+
+
+def _runs(positions):
+    out = []
+    for p in positions:
+        if out and out[-1][1] == p:
+            out[-1][1] = p + 1
+        else:
+            out.append([p, p + 1])
+    return [tuple(x) for x in out]
+
+
+def _relloc_case(repo, it, S, spec):
+    ref, rstr, qstr, part, parts, thorough = spec
+    out = []
+    n = 0
+    mk = lambda lay, sn: (mk_single(it, lay[0][0], lay[0][1], S[sn]) if len(lay) == 1 else  # noqa: E731
+                          mk_compound(it, [b[0] for b in lay], [b[1] for b in lay], S[sn]))
+    loc = mk(ref, rstr)
+    seq = enum_positions(ref, rstr)
+    lo, hi = ref[0][0] - 1, ref[-1][1] + 1
+    f_p2rl = repo.fn("location.location:Location.parent_to_relative_location")
+    f_lrt = repo.fn("location.location:Location.location_relative_to")
+    want_strand = _rel_compose(qstr, rstr)
+    universe = list(range(lo, hi))
+    for mask in range(1 + part, 1 << len(universe), parts):
+        qpos = [universe[i] for i in range(len(universe)) if mask >> i & 1]
+        qlay = _runs(qpos)
+        if len(qlay) > 3:
+            continue
+        inter = [p for p in qpos if p in seq]
+        want = sorted(seq.index(p) for p in inter)
+        q = mk(qlay, qstr)
+        for opt in (True, False):
+            calls = []
+            # quick tier: each entry point with one value of optimize_blocks (alternating with the query), thorough: both
+            if thorough or opt == bool(mask & 1):
+                calls.append(("parent_to_relative_location",) + run(it, f_p2rl, [q], {"optimize_blocks": opt}, loc))
+            if thorough or opt != bool(mask & 1):
+                calls.append(("location_relative_to",) + run(it, f_lrt, [loc], {"optimize_blocks": opt}, q))
+            n += len(calls)
+            desc = f"reference {ref}:{rstr}, query {qlay}:{qstr}, optimize_blocks={opt}"
+            for name, k, v in calls:
+                cq = f"{LOC}:{'Compound' if len(qlay) > 1 else 'Single'}Interval._location_relative_to"
+                if not inter:
+                    # the locations must overlap: refusal (or an empty result) is the documented behaviour
+                    if k == "ok" and not is_empty_obj(v) and sum(e - s_ for s_, e in blocks_of(v)):
+                        out.append((f"{name} without overlap", f"{desc}: returns {blocks_of(v)} although no base is shared", cq))
+                    continue
+                if k != "ok":
+                    out.append((f"{name} raises", f"{desc}: raises {v}; the shared bases have relative positions {want}", cq))
+                    continue
+                got = sorted(x for s_, e_ in blocks_of(v) for x in range(s_, e_))
+                gs = strand_of(v).name if strand_of(v) is not None else None
+                if got != want:
+                    out.append((f"{name} bases", f"{desc}: -> {blocks_of(v)} = relative positions {got}; point-wise the shared bases "
+                                f"map to {want}", cq))
+                elif gs != want_strand:
+                    out.append((f"{name} strand", f"{desc}: result strand {gs}; composing {qstr} with {rstr} gives {want_strand}", cq))
+                elif opt and any(b1[1] >= b2[0] for b1, b2 in zip(blocks_of(v), blocks_of(v)[1:])):
+                    out.append((f"{name} optimized", f"{desc}: -> {blocks_of(v)} keeps adjacent / overlapping blocks", cq))
+    # windows: scan_windows yields, in 5'->3' order, the sub-locations of consecutive relative windows
+    f_sw = repo.fn("location.location:Location.scan_windows")
+    L = len(seq)
+    if qstr == "PLUS" and part == 0:
+        for w in range(1, L + 1):
+            for step in (1, 2):
+                for start in range(0, L):
+                    n += 1
+                    k, v = run(it, f_sw, [w, step, start], {}, loc)
+                    if k == "ok":
+                        try:
+                            v = list(it.iterate(v))
+                        except Raised as ex:
+                            k, v = "raise", ex.exc_name
+                    if start + w > L:
+                        if k != "raise":
+                            out.append(("scan_windows range", f"{ref}:{rstr}.scan_windows({w},{step},{start}) does not reject a first window "
+                                        f"past the end (length {L})", f_sw.qual))
+                        continue
+                    wantw = [seq[a:a + w] for a in range(start, L - w + 1, step)]
+                    if k != "ok":
+                        out.append(("scan_windows", f"{ref}:{rstr}.scan_windows({w},{step},{start}) raises {v}", f_sw.qual))
+                        continue
+                    gotw = [enum_positions(blocks_of(x), strand_of(x).name) for x in v]
+                    if gotw != wantw:
+                        out.append(("scan_windows", f"{ref}:{rstr}.scan_windows({w},{step},{start}) yields windows over parent bases {gotw}; "
+                                    f"the consecutive relative windows are {wantw}", f_sw.qual))
+    return n, out
+
+
+def r5_relative_location(ctx):
+    repo = ctx.repo
+    refs = R5_REFS_QUICK + (R5_REFS_THOROUGH if ctx.thorough else [])
+    parts = 8
+    specs = [(ref, rs, qs, i, parts, ctx.thorough) for ref in refs for rs in ("PLUS", "MINUS") for qs in ("PLUS", "MINUS")
+             for i in range(parts) if ctx.thorough or len(ref) < 3 or rs != qs]
+
+    def work(spec):
+        if _W.get("repo") is not repo:
+            from ..genekernel import gene_interp
+            _W["it"] = gene_interp(repo, max_steps=10 ** 12)
+            _W["repo"] = repo
+        it = _W["it"]
+        try:
+            return _relloc_case(repo, it, strands(it), spec)
+        except Uninterpretable as ex:
+            return 0, [("uninterpretable", str(ex), "location.location:Location.location_relative_to")]
+
+    results = pmap(work, specs, min_items=2)
+    from .c05 import _report
+    _report(ctx, "C01.R5", results, [
+        ("location.location:Location.location_relative_to", "every query of 1..3 blocks over the reference's span (+1 on each side)"),
+        ("location.location:Location.parent_to_relative_location", "mirror entry point gives the same relative bases"),
+        (f"{LOC}:CompoundInterval._location_relative_to", "multi-block queries"),
+        (f"{LOC}:SingleInterval._location_relative_to", "single-block queries"),
+        ("location.location:Location.scan_windows", "windows are the consecutive relative sub-intervals, 5'->3'")])
+    ctx.r.floor("C01.R5", "relative-location evaluations", sum(x[0] for x in results), 3000)
+
+
 def r4_wrappers(ctx):
     from .c06 import wrapper_table_check
     wrapper_table_check(ctx, "C01.R4", only={"sequence_pos_to_feature", "feature_pos_to_sequence",
@@ -362,4 +487,5 @@ RULES = [
     ("C01.R1", r1_affine),
     ("C01.R3", r3_maps),
     ("C01.R4", r4_wrappers),
+    ("C01.R5", r5_relative_location),
 ]
